@@ -172,6 +172,11 @@ func (in *Interp) fromHostConcrete(rv reflect.Value) Value {
 
 // hostString lets placeholder substitution happen for strings coming from host objects.
 func (in *Interp) hostString(s string) Value {
+	if in.l1 != nil {
+		if e, ok := in.l1.nameEnum[s]; ok {
+			return e
+		}
+	}
 	if in.Ex.HostStringHook != nil {
 		if v := in.Ex.HostStringHook(in, s); v != nil {
 			return v
